@@ -49,6 +49,11 @@ def main():
             S[nh] = S[i]
             f = os.path.join(xdir, f"ship-{k}.pkl")
             if owner[i] == me:
+                if i in H and scen.get("sender_computes"):
+                    try:
+                        H[i].compute()          # value-neutral: the sender looks at its array before shipping it
+                    except Exception as e:
+                        out.append(dict(step=k, what=f"sender compute(h{i})", ok=False, err=f"{type(e).__name__}: {str(e)[:120]}"))
                 if i in H:
                     with open(f, "wb") as fh:
                         cloudpickle.dump(H[i], fh)
